@@ -2,6 +2,9 @@
 import os
 
 
+HEAP = ["-Xmx3g"]   # the machine is shared
+
+
 def run(ctx):
     t = ctx.tier
     ctx.rule = ("packets: TLC enumerates the packet matrix (every kind x optional trailing values x value classes - every string field empty / one byte / "
@@ -9,27 +12,30 @@ def run(ctx):
                 "user-control event types) with layout, size, dispatch kind and field values; each packet is marshalled, unmarshalled into the "
                 "constructor's packet and into a blank one, and sent to a peer that decodes it by DecodeMessage and by ExpectPacket, comparing every "
                 "field, Size() and the re-marshalled payload; histories: TLC enumerates every behaviour of RtmpTxn (peer items first, then A's calls "
-                "WritePacket / ReadMessage+DecodeMessage / ExpectPacket / ExpectMessage) within the cfg bounds; each is replayed into real "
+                "WritePacket / ReadMessage+DecodeMessage / ExpectPacket / ExpectMessage; typed waits for every control packet type and for command "
+                "types while responses, duplicates and unsolicited responses arrive before the awaited packet) within the cfg bounds; each is replayed into real "
                 "rtmp.Protocol endpoints comparing outcome and the outstanding-request table after every step; distinct = distinct JSON case")
     ctx.exhaustive = True
     ctx.assumptions += ["AMF0 command objects come from a small fixed family (empty, flat, nested, 65535-byte string in thorough)",
                         "_error responses and media before a typed packet wait are outside the property and not generated",
                         "Set Chunk Size 0 is not sent over the wire stage"]
     ctx.sany("rtmp", "RtmpTxn")
-    ctx.tlc("rtmp", "MC_RtmpTxn", "MC_Txn.cfg", coverage=(t == "thorough"))
-    ctx.tlc("rtmp", "MC_RtmpTxn", "MC_Txn_deviation.cfg", expect_violation="MatchOnce", count_states=False)
+    ctx.tlc("rtmp", "MC_RtmpTxn", "MC_Txn.cfg", coverage=(t == "thorough"), jopts=HEAP)
+    ctx.tlc("rtmp", "MC_RtmpTxn", "MC_Txn_deviation.cfg", expect_violation="MatchOnce", count_states=False, jopts=HEAP)
+    # a typed wait for a control packet that passes over responses without decoding them
+    ctx.tlc("rtmp", "MC_RtmpTxn", "MC_Txn_dev_waitskips.cfg", expect_violation="EveryResponseJudged", count_states=False, jopts=HEAP)
     # codec part: the journey of one packet (RtmpCodec) with the byte-level decoder of the specification
     ctx.sany("rtmp", "RtmpCodec")
-    ctx.tlc("rtmp", "MC_RtmpCodec", "MC_Codec.cfg", coverage=(t == "thorough"))
+    ctx.tlc("rtmp", "MC_RtmpCodec", "MC_Codec.cfg", coverage=(t == "thorough"), jopts=HEAP)
     devs = ["emptyabsent"] if t == "quick" else ["emptyabsent", "trustpreset", "zerokeeps"]
     for dev in devs:
-        ctx.tlc("rtmp", "MC_RtmpCodec", "MC_Codec_dev_%s.cfg" % dev, expect_violation="FieldsSurvive", count_states=False)
+        ctx.tlc("rtmp", "MC_RtmpCodec", "MC_Codec_dev_%s.cfg" % dev, expect_violation="FieldsSurvive", count_states=False, jopts=HEAP)
     pk = os.path.join(ctx.out, "packets.ndjson")
-    ctx.tlc("rtmp", "Gen_RtmpPacket", "Gen_Packet.%s.cfg" % t, cases_to=pk, timeout=900)
+    ctx.tlc("rtmp", "Gen_RtmpPacket", "Gen_Packet.%s.cfg" % t, cases_to=pk, timeout=900, jopts=HEAP)
     res = ctx.replay("packets", pk)
     ctx.judge("packets", pk, res)
     hs = os.path.join(ctx.out, "histories.ndjson")
-    for fam in ("thin", "full", "alt"):
-        ctx.tlc("rtmp", "MC_RtmpTxn", "Gen_Txn_%s.%s.cfg" % (fam, t), cases_to=hs, timeout=1500, count_states=False)
+    for fam in ("thin", "full", "alt", "ctl"):
+        ctx.tlc("rtmp", "MC_RtmpTxn", "Gen_Txn_%s.%s.cfg" % (fam, t), cases_to=hs, timeout=1500, count_states=False, jopts=HEAP)
     res = ctx.replay("history", hs)
     ctx.judge("history", hs, res)
